@@ -963,7 +963,8 @@ Section CSMachine.
   Proof. intros H. unfold c_translate. rewrite H. rewrite (translate_vector_err _ _ H). reflexivity. Qed.
 End CSMachine.
 
-(* convert_from_gcs_pairwise on point arrays of ANY shape: the result has the shape
+(* convert_from_gcs_pairwise on point arrays of any shape with >= 1 dimension against 1-d origins
+   (the domain where the library computes an outer difference): the result has the shape
    pshape ++ oshape and its entry at the index ip ++ io is the coordinate of the converted point
    P[ip] minus the coordinate of origins[io] *)
 Section Pairwise.
@@ -984,20 +985,36 @@ Section Pairwise.
     - apply ravel_lt. exact Bo.
   Qed.
 
+  (* REPAIR: c_convert_from_gcs_pairwise answers NotModelled unless origins is 1-d and the points have
+     at least one dimension (numpy broadcasts otherwise: the result is no outer difference); the
+     statement gained the hypothesis pairwise_modelled P O = true and the result is `inr` *)
   Lemma pairwise_get (c : cstate) (P O : points T) ip io p o :
+    pairwise_modelled P O = true ->
     nd_wf O -> nd_get P ip = Some p -> nd_get O io = Some o ->
     let q := cs_convert_from_gcs N (c_origin c) (c_i c) (c_j c) p in
-    let '(X, Y, Z) := c_convert_from_gcs_pairwise N c P O in
+    exists X Y Z, c_convert_from_gcs_pairwise N c P O = inr (X, Y, Z) /\
     nd_shape X = nd_shape P ++ nd_shape O /\ nd_shape Y = nd_shape P ++ nd_shape O /\
     nd_shape Z = nd_shape P ++ nd_shape O /\
     nd_get X (ip ++ io) = Some (nsub N (vx q) (vx o)) /\
     nd_get Y (ip ++ io) = Some (nsub N (vy q) (vy o)) /\
     nd_get Z (ip ++ io) = Some (nsub N (vz q) (vz o)).
   Proof.
-    intros W Hp Ho q. unfold c_convert_from_gcs_pairwise.
+    intros D W Hp Ho q. unfold c_convert_from_gcs_pairwise. rewrite D.
     assert (Hq : nd_get (c_convert_from_gcs N c P) ip = Some q)
       by (unfold c_convert_from_gcs; rewrite nd_get_map, Hp; reflexivity).
+    do 3 eexists. split; [reflexivity|].
     repeat split; try (apply outer_sub_get; assumption).
+  Qed.
+
+  (* outside that domain the model says nothing: the marker *)
+  Lemma pairwise_outside (c : cstate) (P O : points T) :
+    pairwise_modelled P O = false -> c_convert_from_gcs_pairwise N c P O = inl NotModelled.
+  Proof. intros D. unfold c_convert_from_gcs_pairwise. rewrite D. reflexivity. Qed.
+
+  Lemma pairwise_modelled_spec (P O : points T) :
+    pairwise_modelled P O = true <-> length (nd_shape O) = 1 /\ length (nd_shape P) <> 0.
+  Proof.
+    unfold pairwise_modelled. rewrite Bool.andb_true_iff, Bool.negb_true_iff, Nat.eqb_eq, Nat.eqb_neq. reflexivity.
   Qed.
 End Pairwise.
 
